@@ -60,6 +60,15 @@ Proof.
   rewrite seq_length, seq_nth in H by lia. injection H as <-. lia.
 Qed.
 
+Lemma firstn_snoc {A} (l : list A) j d0 : j < length l -> firstn (S j) l = firstn j l ++ [nth j l d0].
+Proof.
+  revert j; induction l as [|x l IH]; intros j H; cbn [length] in H; [lia|].
+  destruct j; [reflexivity|]. cbn [firstn nth app]. f_equal. apply IH. lia.
+Qed.
+
+Lemma firstn_nonnil {A} (l : list A) j : 1 <= j -> l <> [] -> firstn j l <> [].
+Proof. destruct l, j; try lia; try congruence; intros; discriminate. Qed.
+
 (* ------------------------------------------------------------------ isqrt *)
 Lemma isqrt_spec n : isqrt n * isqrt n <= n < (isqrt n + 1) * (isqrt n + 1).
 Proof.
@@ -302,7 +311,239 @@ Section Sums.
         by (destruct xs; [congruence|reflexivity]).
       apply ascent_loop_spec; [lia|fold n; lia|apply ascent_inv_init].
     Qed.
+
+    (* -------------------------------------------------------------- sqrt trick *)
+    Lemma mod_pred k bs : 1 <= bs -> k mod bs <> 0 -> (k - 1) mod bs = k mod bs - 1.
+    Proof.
+      intros Hb Hk. symmetry. apply Nat.mod_unique with (q := k / bs).
+      - pose proof (Nat.mod_upper_bound k bs). lia.
+      - pose proof (Nat.div_mod_eq k bs) as E.
+        set (q := k / bs) in *. set (r := k mod bs) in *. clearbody q r.
+        set (m := bs * q) in *. clearbody m. lia.
+    Qed.
+
+    Lemma block_start_ge i bs : 1 <= bs -> bs <= i -> bs <= i - i mod bs.
+    Proof.
+      intros Hb Hi. pose proof (Nat.div_mod_eq i bs) as E.
+      assert (Hq : 1 <= i / bs) by (apply Nat.div_le_lower_bound; lia).
+      set (q := i / bs) in *. set (r := i mod bs) in *. clearbody q r.
+      replace (i - r) with (bs * q) by lia. nia.
+    Qed.
+
+    (* data_structures.rs:74 "Invariant: combined_items[i] = sum(items[i - i % block_size : i + 1])" *)
+    Lemma sqrt_pass1_spec bs : 1 <= bs ->
+      exists c, foldM (sqrt_step1 op bs) (seq 0 n) xs = Ok c /\ length c = n /\
+                forall j, j < n -> nth j c d = seg (j - j mod bs) (j + 1).
+    Proof.
+      intros Hb.
+      destruct (foldM_inv (sqrt_step1 op bs)
+                  (fun k c => length c = n /\
+                     forall j, j < n -> nth j c d = if j <? k then seg (j - j mod bs) (j + 1) else nth j xs d)
+                  (seq 0 n) xs) as (c & E & L & I).
+      - split; auto.
+      - intros k a i Hi [La Ia]. apply nth_error_seq in Hi as [-> Hk]. cbn [Nat.add].
+        unfold sqrt_step1. destruct (k mod bs =? 0) eqn:Em; cbn [negb].
+        + apply Nat.eqb_eq in Em. exists a. split; [reflexivity|]. split; auto.
+          intros j Hj. rewrite Ia by auto.
+          destruct (j <? k) eqn:E1, (j <? S k) eqn:E2; auto;
+            apply Nat.ltb_lt in E1 || apply Nat.ltb_ge in E1;
+            apply Nat.ltb_lt in E2 || apply Nat.ltb_ge in E2; try lia.
+          assert (j = k) by lia. subst j. rewrite Em, Nat.sub_0_r. symmetry. now apply seg_single.
+        + apply Nat.eqb_neq in Em. assert (1 <= k) by (destruct k; [rewrite Nat.mod_0_l in Em; lia|lia]).
+          rewrite (arr_get_ok a (k - 1) d) by lia. rewrite (arr_get_ok a k d) by lia.
+          cbn [bind]. rewrite arr_set_ok by lia. eexists. split; [reflexivity|].
+          split; [now rewrite set_nth_length|].
+          intros j Hj. rewrite set_nth_nth by lia. destruct (j =? k) eqn:Ejk.
+          * apply Nat.eqb_eq in Ejk. subst j.
+            replace (k <? S k) with true by (symmetry; apply Nat.ltb_lt; lia).
+            rewrite (Ia (k - 1)), (Ia k) by lia.
+            replace (k - 1 <? k) with true by (symmetry; apply Nat.ltb_lt; lia).
+            replace (k <? k) with false by (symmetry; apply Nat.ltb_ge; lia).
+            rewrite mod_pred by auto. rewrite <- (seg_single k) by auto.
+            replace (k - 1 - (k mod bs - 1)) with (k - k mod bs) by lia.
+            replace (k - 1 + 1) with k by lia.
+            pose proof (Nat.mod_le k bs). apply seg_split; lia.
+          * apply Nat.eqb_neq in Ejk. rewrite Ia by auto.
+            destruct (j <? k) eqn:E1, (j <? S k) eqn:E2; auto;
+              apply Nat.ltb_lt in E1 || apply Nat.ltb_ge in E1;
+              apply Nat.ltb_lt in E2 || apply Nat.ltb_ge in E2; lia.
+      - exists c. split; [exact E|]. split; [exact L|]. intros j Hj. rewrite I by auto.
+        rewrite seq_length. now replace (j <? n) with true by (symmetry; apply Nat.ltb_lt; lia).
+    Qed.
+
+    Lemma sqrt_pass2_spec bs c : 1 <= bs -> length c = n ->
+      (forall j, j < n -> nth j c d = seg (j - j mod bs) (j + 1)) ->
+      exists c', foldM (sqrt_step2 op bs) (seq bs (n - bs)) c = Ok c' /\ is_prefix_sums c'.
+    Proof.
+      intros Hb Lc Ic.
+      destruct (foldM_inv (sqrt_step2 op bs)
+                  (fun k c' => length c' = n /\
+                     forall j, j < n -> nth j c' d =
+                       if j <? bs + k then seg 0 (j + 1) else seg (j - j mod bs) (j + 1))
+                  (seq bs (n - bs)) c) as (c' & E & L & I).
+      - split; auto. intros j Hj. rewrite Ic by auto. destruct (j <? bs + 0) eqn:E1; auto.
+        apply Nat.ltb_lt in E1. rewrite Nat.mod_small by lia. now rewrite Nat.sub_diag.
+      - intros k a i Hi [La Ia]. apply nth_error_seq in Hi as [-> Hk].
+        set (i := bs + k). assert (Hi : i < n) by (unfold i; lia).
+        pose proof (block_start_ge i bs Hb ltac:(unfold i; lia)) as Hs.
+        pose proof (Nat.mod_le i bs ltac:(lia)) as Hm.
+        unfold sqrt_step2.
+        rewrite (arr_get_ok a (i - i mod bs - 1) d) by lia. rewrite (arr_get_ok a i d) by lia.
+        cbn [bind]. rewrite arr_set_ok by lia. eexists. split; [reflexivity|].
+        split; [now rewrite set_nth_length|].
+        intros j Hj. rewrite set_nth_nth by lia. destruct (j =? i) eqn:Eji.
+        + apply Nat.eqb_eq in Eji. subst j.
+          replace (i <? bs + S k) with true by (symmetry; apply Nat.ltb_lt; unfold i; lia).
+          rewrite (Ia (i - i mod bs - 1)), (Ia i) by lia.
+          replace (i - i mod bs - 1 <? bs + k) with true by (symmetry; apply Nat.ltb_lt; unfold i in *; lia).
+          replace (i <? bs + k) with false by (symmetry; apply Nat.ltb_ge; unfold i; lia).
+          replace (i - i mod bs - 1 + 1) with (i - i mod bs) by lia.
+          apply seg_split; lia.
+        + apply Nat.eqb_neq in Eji. rewrite Ia by auto.
+          destruct (j <? bs + k) eqn:E1, (j <? bs + S k) eqn:E2; auto;
+            apply Nat.ltb_lt in E1 || apply Nat.ltb_ge in E1;
+            apply Nat.ltb_lt in E2 || apply Nat.ltb_ge in E2; unfold i in *; lia.
+      - exists c'. split; [exact E|]. split; [exact L|]. intros j Hj. rewrite I by auto.
+        rewrite seq_length. destruct (j <? bs + (n - bs)) eqn:E1; auto.
+        apply Nat.ltb_ge in E1. lia.
+    Qed.
+
+    (* any block size >= 1 gives prefix sums; the code's choice is max(1, floor(sqrt n)) *)
+    Lemma prefix_sums_blocks_ok bs : 1 <= bs ->
+      exists ys, prefix_sums_blocks op bs xs = Ok ys /\ is_prefix_sums ys.
+    Proof.
+      intros Hb. unfold prefix_sums_blocks. fold n.
+      destruct (sqrt_pass1_spec bs Hb) as (c & E & L & I). rewrite E. cbn [bind].
+      apply sqrt_pass2_spec; auto.
+    Qed.
+
+    Lemma sqrt_trick_ok : xs <> [] ->
+      exists ys, prefix_sums_sqrt_trick op xs = Ok ys /\ is_prefix_sums ys.
+    Proof.
+      intros Hne.
+      replace (prefix_sums_sqrt_trick op xs)
+        with (prefix_sums_blocks op (sqrt_block_size (length xs)) xs)
+        by (destruct xs; [now elim Hne|reflexivity]).
+      apply prefix_sums_blocks_ok, sqrt_block_size_pos.
+    Qed.
   End Segments.
+
+  (* ---------------------------------------------------------------- segment tree *)
+  Definition psums (l : list T) : list T :=
+    map (fun i => sum1 (firstn (S i) l)) (seq 0 (length l)).
+
+  Lemma psums_length l : length (psums l) = length l.
+  Proof. unfold psums. now rewrite map_length, seq_length. Qed.
+
+  Lemma psums_nth l i : i < length l -> nth i (psums l) d = sum1 (firstn (S i) l).
+  Proof.
+    intros H. unfold psums. set (f := fun i => sum1 (firstn (S i) l)).
+    rewrite (nth_indep _ d (f 0)) by (now rewrite map_length, seq_length).
+    rewrite map_nth, seq_nth by auto. reflexivity.
+  Qed.
+
+  Lemma psums_small l : length l <= 1 -> psums l = l.
+  Proof. destruct l as [|x [|y r]]; cbn [length]; intros H; try lia; reflexivity. Qed.
+
+  (* what layer i+1 holds for layer i: its own prefix sums are every second prefix sum below *)
+  Lemma psums_pair_up_nth lo m : lo <> [] -> m < length (pair_up op lo) ->
+    nth m (psums (pair_up op lo)) d = sum1 (firstn (2 * S m) lo).
+  Proof.
+    intros Hne Hm. rewrite psums_nth by auto. rewrite pair_up_firstn. apply pair_up_sum1.
+  Qed.
+
+  Lemma descend_pass_spec lo : lo <> [] ->
+    descend_pass op (psums (pair_up op lo)) lo = Ok (psums lo).
+  Proof.
+    intros Hne. unfold descend_pass. set (m := length lo). set (up := psums (pair_up op lo)).
+    assert (Lup : length up = (m + 1) / 2) by (unfold up; now rewrite psums_length, pair_up_length).
+    assert (Hm : 1 <= m) by (unfold m; destruct lo; [congruence|cbn [length]; lia]).
+    destruct (foldM_inv (descend_step op up)
+                (fun k c => length c = m /\
+                   forall j, j < m -> nth j c d =
+                     if (1 <=? j) && (j <? 1 + k) then sum1 (firstn (S j) lo) else nth j lo d)
+                (seq 1 (m - 1)) lo) as (c & E & L & I).
+    - split; auto. intros j Hj. destruct (1 <=? j) eqn:E1, (j <? 1 + 0) eqn:E2; auto.
+      apply Nat.leb_le in E1. apply Nat.ltb_lt in E2. lia.
+    - intros k a j Hi [La Ia]. apply nth_error_seq in Hi as [-> Hk].
+      set (j := 1 + k). assert (Hj : j < m) by (unfold j; lia).
+      assert (Hkeep : forall j', j' < m -> j' <> j ->
+                (if (1 <=? j') && (j' <? 1 + k) then sum1 (firstn (S j') lo) else nth j' lo d) =
+                (if (1 <=? j') && (j' <? 1 + S k) then sum1 (firstn (S j') lo) else nth j' lo d)).
+      { intros j' H1 H2. destruct (1 <=? j'); cbn [andb]; auto.
+        destruct (j' <? 1 + k) eqn:E1, (j' <? 1 + S k) eqn:E2; auto;
+          apply Nat.ltb_lt in E1 || apply Nat.ltb_ge in E1;
+          apply Nat.ltb_lt in E2 || apply Nat.ltb_ge in E2; unfold j in *; lia. }
+      assert (Hnew : (1 <=? j) && (j <? 1 + S k) = true).
+      { apply andb_true_iff. split; [apply Nat.leb_le|apply Nat.ltb_lt]; unfold j; lia. }
+      unfold descend_step. destruct (j mod 2 =? 1) eqn:Eodd.
+      + apply Nat.eqb_eq in Eodd.
+        assert (Hidx : j / 2 < length up) by (rewrite Lup; lia).
+        rewrite (arr_get_ok up (j / 2) d) by auto. cbn [bind]. rewrite arr_set_ok by lia.
+        eexists. split; [reflexivity|]. split; [now rewrite set_nth_length|].
+        intros j' Hj'. rewrite set_nth_nth by lia. destruct (j' =? j) eqn:Ej.
+        * apply Nat.eqb_eq in Ej. subst j'. rewrite Hnew.
+          unfold up. rewrite psums_pair_up_nth; auto; [|now rewrite <- (psums_length (pair_up op lo))].
+          f_equal. f_equal. lia.
+        * apply Nat.eqb_neq in Ej. rewrite Ia by auto. now apply Hkeep.
+      + apply Nat.eqb_neq in Eodd.
+        assert (Hj2 : 2 <= j) by (unfold j in *; destruct k; [cbn in Eodd; lia|lia]).
+        assert (Hidx : (j - 1) / 2 < length up) by (rewrite Lup; lia).
+        rewrite (arr_get_ok up ((j - 1) / 2) d) by auto. rewrite (arr_get_ok a j d) by lia.
+        cbn [bind]. rewrite arr_set_ok by lia.
+        eexists. split; [reflexivity|]. split; [now rewrite set_nth_length|].
+        intros j' Hj'. rewrite set_nth_nth by lia. destruct (j' =? j) eqn:Ej.
+        * apply Nat.eqb_eq in Ej. subst j'. rewrite Hnew. rewrite (Ia j) by auto.
+          replace ((1 <=? j) && (j <? 1 + k)) with false
+            by (symmetry; apply andb_false_iff; right; apply Nat.ltb_ge; unfold j; lia).
+          unfold up. rewrite psums_pair_up_nth; auto; [|now rewrite <- (psums_length (pair_up op lo))].
+          replace (2 * S ((j - 1) / 2)) with j by lia.
+          rewrite (firstn_snoc lo j d) by (fold m; lia).
+          rewrite sum1_app; [reflexivity| |discriminate]. apply firstn_nonnil; auto; lia.
+        * apply Nat.eqb_neq in Ej. rewrite Ia by auto. now apply Hkeep.
+    - rewrite E. f_equal. apply (nth_ext _ _ d d).
+      + now rewrite psums_length.
+      + intros j Hj. rewrite L in Hj. rewrite I by auto. rewrite seq_length.
+        rewrite psums_nth by (fold m; lia).
+        destruct (1 <=? j) eqn:E1; cbn [andb].
+        * apply Nat.leb_le in E1. now replace (j <? 1 + (m - 1)) with true by (symmetry; apply Nat.ltb_lt; lia).
+        * apply Nat.leb_gt in E1. assert (j = 0) by lia. subst j.
+          destruct lo; [congruence|reflexivity].
+  Qed.
+
+  Lemma seg_tree_core fuel : forall cur, cur <> [] -> length cur <= S fuel ->
+    exists layers rest', build_layers op fuel cur = Ok layers /\
+                         descend op layers = Ok (psums cur :: rest').
+  Proof.
+    induction fuel as [|fuel IH]; intros cur Hne Hlen.
+    - exists [cur], []. replace (build_layers op 0 cur) with (Ok [cur]).
+      2:{ cbn [build_layers]. now replace (length cur <=? 1) with true by (symmetry; apply Nat.leb_le; lia). }
+      split; auto. cbn [descend]. now rewrite psums_small by lia.
+    - cbn [build_layers]. destruct (length cur <=? 1) eqn:E.
+      + apply Nat.leb_le in E. exists [cur], []. split; auto. cbn [descend]. now rewrite psums_small by lia.
+      + apply Nat.leb_gt in E.
+        destruct (IH (pair_up op cur)) as (layers1 & r1 & B1 & D1).
+        { intros H. apply pair_up_nil in H. congruence. }
+        { rewrite pair_up_length. lia. }
+        rewrite B1. cbn [bind]. exists (cur :: layers1). eexists. split; [reflexivity|].
+        destruct layers1 as [|l1 ls]; [cbn [descend] in D1; discriminate|].
+        set (ll := l1 :: ls) in *. cbn [descend]. unfold ll at 1. fold ll. rewrite D1. cbn [bind].
+        unfold arr_get at 1. cbn [nth_error bind]. rewrite descend_pass_spec by auto. cbn [bind].
+        reflexivity.
+  Qed.
+
+  Lemma segment_tree_ok xs : xs <> [] ->
+    exists ys, prefix_sums_segment_tree op xs = Ok ys /\ is_prefix_sums xs ys.
+  Proof.
+    intros Hne.
+    replace (prefix_sums_segment_tree op xs)
+      with (let* layers := build_layers op (length xs) xs in
+            let* layers' := descend op layers in arr_get layers' 0)
+      by (destruct xs; [now elim Hne|reflexivity]).
+    destruct (seg_tree_core (length xs) xs Hne ltac:(lia)) as (layers & r & B & D).
+    rewrite B. cbn [bind]. rewrite D. cbn [bind]. exists (psums xs). split; [reflexivity|].
+    split; [apply psums_length|]. intros i Hi. rewrite psums_nth by auto. now rewrite seg_prefix.
+  Qed.
 End Sums.
 
 (* ------------------------------------------------------------------ default-free statements *)
@@ -339,3 +580,48 @@ Proof.
   intros A items. destruct items as [|x r]; [reflexivity|].
   rewrite (log_depth_sum_spec op A x). reflexivity.
 Qed.
+
+Theorem sqrt_trick_spec {T} (op : T -> T -> T) :
+  (forall a b c, op (op a b) c = op a (op b c)) ->
+  forall xs, exists ys, prefix_sums_sqrt_trick op xs = Ok ys /\ prefix_spec op xs ys.
+Proof.
+  intros A xs. destruct xs as [|x r] eqn:E.
+  - exists []. split; [reflexivity|apply prefix_spec_nil].
+  - rewrite <- E. destruct (sqrt_trick_ok op A x xs) as (ys & H1 & H2); [subst; discriminate|].
+    exists ys. split; auto. eapply is_prefix_sums_spec; eauto.
+Qed.
+
+(* the two passes are correct for any block size >= 1 (so the result does not depend on the
+   floating-point square root being exact) *)
+Theorem blocks_spec {T} (op : T -> T -> T) :
+  (forall a b c, op (op a b) c = op a (op b c)) ->
+  forall bs xs, 1 <= bs -> exists ys, prefix_sums_blocks op bs xs = Ok ys /\ prefix_spec op xs ys.
+Proof.
+  intros A bs xs Hb. destruct xs as [|x r] eqn:E.
+  - exists []. split; [|apply prefix_spec_nil]. unfold prefix_sums_blocks. cbn [length seq foldM bind].
+    replace (0 - bs) with 0 by lia. reflexivity.
+  - rewrite <- E. destruct (prefix_sums_blocks_ok op A x xs bs Hb) as (ys & H1 & H2).
+    exists ys. split; auto. eapply is_prefix_sums_spec; eauto.
+Qed.
+
+Theorem segment_tree_spec {T} (op : T -> T -> T) :
+  (forall a b c, op (op a b) c = op a (op b c)) ->
+  forall xs, exists ys, prefix_sums_segment_tree op xs = Ok ys /\ prefix_spec op xs ys.
+Proof.
+  intros A xs. destruct xs as [|x r] eqn:E.
+  - exists []. split; [reflexivity|apply prefix_spec_nil].
+  - rewrite <- E. destruct (segment_tree_ok op A x xs) as (ys & H1 & H2); [subst; discriminate|].
+    exists ys. split; auto. eapply is_prefix_sums_spec; eauto.
+Qed.
+
+(* whichever algorithm is picked (any caller length, either level) *)
+Theorem pick_spec {T} (op : T -> T -> T) :
+  (forall a b c, op (op a b) c = op a (op b c)) ->
+  forall inputs_len lvl xs,
+    exists ys, pick_prefix_sum_algorithm op inputs_len lvl xs = Ok ys /\ prefix_spec op xs ys.
+Proof.
+  intros A n lvl xs. unfold pick_prefix_sum_algorithm. destruct lvl.
+  - destruct (n <? 16); [apply sqrt_trick_spec|apply segment_tree_spec]; auto.
+  - apply binary_ascent_spec; auto.
+Qed.
+
